@@ -259,7 +259,16 @@ class Result:
             log("  what: %s" % v["what"])
             log("  features: %s" % json.dumps(v["features"], sort_keys=True))
             shown += 1
+        cls_count = {}
+        for v in unknown:
+            k = json.dumps(v["features"], sort_keys=True)
+            cls_count[k] = cls_count.get(k, 0) + 1
+        if len(cls_count) > 1:
+            log("unlisted violation classes (%d):" % len(cls_count))
+            for k, n in sorted(cls_count.items(), key=lambda kv: -kv[1])[:80]:
+                log("  %6d  %s" % (n, k))
         cov = self.coverage
+        cov["unlisted_violation_classes"] = len(cls_count)
         if not cov.get("distinct_nontrivial"):
             cov["distinct_nontrivial"] = len(self._distinct)
         cov["caps_hit"] = self.caps
